@@ -26,6 +26,11 @@ import (
 func init() {
 	log.SetOutput(io.Discard)
 	log.SetLevel(log.PanicLevel)
+	if os.Getenv("VERIF_DEBUG_LOG") != "" {
+		// for triage only: the nodes' own log on stderr
+		log.SetOutput(os.Stderr)
+		log.SetLevel(log.InfoLevel)
+	}
 }
 
 var vfRegOnce sync.Once
